@@ -89,6 +89,8 @@ CODED_FILES = [BYTES + b.hex() for b in (
     # contents that are no text for CPython either: an unknown encoding, a byte order mark contradicted by the declaration, bytes invalid in UTF-8
     # line ends other than LF around the declaration: it counts only in the first two lines, and a later `coding:` is just text
     b"#\rcoding=1\r", "#\rx='coding:latin-1 \u00e9'\r".encode(), b"\r# coding: latin-1\rx = '\xe9'\r", b"#!x\r\n# coding: latin-1\r\nx = '\xe9' 1\r\n", b"# c\r# d\r# coding: latin-1\rx = 1\r",
+    # a declaration counts on the first two physical lines only: blank lines in front are lines too
+    b"#!/usr/bin/env xonsh\n\n# -*- coding: latin-1 -*-\nname = '\xc3\xa9'\n", b"# a\n\n# Hardcoding: defaults\nx = 1\n", b"\n\n# coding: latin-1\nx = '\xc3\xa9' 1\n", b"\r\n\r\n# coding: cp1252\r\ny = '\xc3\xbc'\r\n", b"#\r\r# coding: latin-1\rz = '\xc3\xa9'\r",
     b"# coding: no-such-codec\nx = 1\n", b"#!x\n# -*- coding: ut\xc3\xa9f-8 -*-\nx = 1\n", b"\xef\xbb\xbf# coding: latin-1\nx = 1\n", b"x = '\xe9'\n")]
 
 
